@@ -18,6 +18,46 @@ ASSUMPTIONS = []
 CONFIGS = ["build", "assert"]
 
 
+def rule_truncate(P):
+    """a reply is cut to the advertised UDP size (and TC set) only for a UDP client: over TCP the size a query's OPT record advertises for UDP does not apply, and a truncated TCP reply
+    announces records in its header that are not in the message"""
+    r = Rule("C35-truncate-udp-only", "K6", "format_response truncates (TC) exactly when the client came over UDP and the encoded reply exceeds the size it can take", floor=20)
+    f = P.fn("evdns_server_request_format_response")
+    brs = [b for b in f.branch_blocks() if any(is_e(q, "fld") and q[2].endswith(".max_udp_reply_size") for q in walk(b.term["cond"]))]
+    clamp = [el for el, lhs, op, rhs in f.stores() if is_e(strip(lhs), "var") and is_e(strip(rhs), "fld") and strip(rhs)[2].endswith(".max_udp_reply_size")]
+    fin = [el for el, lhs, op, rhs in f.stores() if is_e(strip(lhs), "fld") and strip(lhs)[2].endswith(".response_len")]
+    if len(brs) != 1 or len(clamp) != 1 or len(fin) != 1:
+        r.brk("truncation test / clamp / final length store not found (%d/%d/%d)" % (len(brs), len(clamp), len(fin)))
+        return r
+    jv = strip(clamp[0].e[2])[1]
+    reqv = ["var", f.params[0][0], "param"]
+    kmax = nkey(["fld", reqv, "server_request.max_udp_reply_size", "->"])
+    kcl = nkey(["fld", reqv, "server_request.client", "->"])
+    start = (brs[0].id, len(brs[0].elems))
+    for client in (0, 7):
+        for mx in (512, 1232, 4096, 65535):
+            for j in (100, 512, 513, 2000, 5000, 65535):
+                env = {"#typed": 1, f.params[0][0]: 1, jv: j, kmax: mx, kcl: client}
+                got = set()
+                for o in run_all(f, start, env, lambda el: el is clamp[0] or el is fin[0], P, lambda el, e_: None, max_steps=100):
+                    if o.kind != "stop":
+                        r.brk("truncation decision: %s %s" % (o.kind, o.why))
+                        return r
+                    got.add(o.at is clamp[0])
+                want = (client == 0) and j > mx
+                r.inst((client, mx, j), {"transport": "tcp" if client else "udp", "advertised_udp_size": mx, "encoded_length": j, "truncates": sorted(got)})
+                if got != {want}:
+                    r.bad("K6:evdns_server_request_format_response:truncation-udp-only", "%s:%d" % (f.file, brs[0].term["loc"][0]), f.name,
+                          "%s client, advertised UDP size %d, reply of %d bytes: %s; a reply is truncated iff it goes over UDP and is longer than the client can take" % ("TCP" if client else "UDP", mx, j, "truncated" if True in got else "not truncated"))
+    seen, uniq = set(), []
+    for f_ in r.findings:
+        if f_.key not in seen:
+            seen.add(f_.key)
+            uniq.append(f_)
+    r.findings = uniq
+    return r
+
+
 def run(ctx, config):
     P = ctx.prog(UNITS, config)
     rules = []
@@ -34,6 +74,7 @@ def run(ctx, config):
         r.bad("K3:evdns_server_request_format_response:truncation", "%s:%d" % (f.file, f.line), f.name, "overflow path does not both clamp the length and set TC")
     rules.append(r)
     rules.append(rule_sections(P))
+    rules.append(rule_truncate(P))
     return rules
 
 
